@@ -4,6 +4,8 @@ package conf
 
 import (
 	"bytes"
+	"encoding/json"
+	"io"
 	"errors"
 	"fmt"
 	"math"
@@ -33,6 +35,43 @@ func (s *sq) Name() string  { return "sq" }
 func (s *sq) String() string {
 	return fmt.Sprintf("sq(%d)", s.s)
 }
+
+func showJ(x interface{}) string {
+	switch v := x.(type) {
+	case nil:
+		return "nil"
+	case bool:
+		return fmt.Sprint("b:", v)
+	case float64:
+		return fmt.Sprint("f:", v)
+	case string:
+		return "s:" + strconv.Quote(v)
+	case json.Number:
+		return "n:" + string(v)
+	case []interface{}:
+		out := "["
+		for _, e := range v {
+			out += showJ(e) + ","
+		}
+		return out + "]"
+	case map[string]interface{}:
+		keys := []string{}
+		for k := range v {
+			keys = append(keys, k)
+		}
+		sort.Strings(keys)
+		out := "{"
+		for _, k := range keys {
+			out += strconv.Quote(k) + ":" + showJ(v[k]) + ","
+		}
+		return out + "}"
+	}
+	return "?"
+}
+
+type failJ struct{}
+
+func (*failJ) UnmarshalJSON([]byte) error { return errors.New("unexpected json in stream") }
 
 type myErr struct{ code int }
 
@@ -453,6 +492,29 @@ func init() {
 				out += v.String()
 			}
 			out += "|"
+		}
+		return out
+	})
+	reg("jsondecode", func() string {
+		// the interface{} decoding path of encoding/json (Unmarshal and Decoder with UseNumber),
+		// including the error values, on valid, invalid, truncated and trailing-content documents
+		out := ""
+		docs := []string{`{"a":[1,2.5,"x\n\u00e9",true,null,{"b":{}}],"a2":-0}`, `[1`, `1 2`, ``, ` `, `{"a":1}}`, `[1,]`, `{"a" 1}`, `"\ud800"`, "\"\xff\"", `1e999`, `01`, `-`, `tru`, `nul`, `[]]`, `{"k":1,"k":2}`, "\t[ 1 , 2 ]\n", `"a`, `1.`, `.5`, `1e`, `+1`, `{`, `}`, `[[[[1]]]]`, `123456789012345678901234567890`}
+		for _, d := range docs {
+			var x interface{}
+			err := json.Unmarshal([]byte(d), &x)
+			out += fmt.Sprintf("%s %v|", showJ(x), err)
+			var se *json.SyntaxError
+			out += fmt.Sprint(errors.As(err, &se), ";")
+			dec := json.NewDecoder(bytes.NewReader([]byte(d)))
+			dec.UseNumber()
+			var y interface{}
+			err = dec.Decode(&y)
+			out += fmt.Sprintf("%s %v %v|", showJ(y), err, err == io.EOF)
+			var m json.Unmarshaler = (*failJ)(nil)
+			err = dec.Decode(&m)
+			out += fmt.Sprintf("%v %v %v;", err, err == io.EOF, errors.Is(err, io.ErrUnexpectedEOF))
+			out += fmt.Sprint(dec.More(), "\n")
 		}
 		return out
 	})
